@@ -265,7 +265,7 @@ def run(out: Outcome) -> None:
         runners.append(check_trace(out, "KSWIN", {"alpha": 1.0, "min_num_instances": 10, "num_test_instances": 3}, [("u", 0.5)] * 15, const_value=0.5))
         runners.append(check_trace(out, "EDDM", {"alpha": 1.5, "beta": 1.2, "min_num_misclassified_instances": 3}, [("u", 1)] * 10, const_value=1))
         runners.append(check_trace(out, "STEPD", {"alpha_d": 0.5, "alpha_w": 1.5, "min_num_instances": 3}, [("u", 1)] * 10, const_value=1))
-    settle(out, runners)
+    settle(out, [r for r in runners if r is not None])     # a witness whose configuration is (now) rejected by the constructor has no trace to compare
 
 
 def settle(out: Outcome, runners: list) -> None:
